@@ -44,7 +44,7 @@ func main() {
 	var decls []decl
 	var reg []string
 	pad := func() string { return strings.Repeat("\n", r.Intn(4)) }
-	shapes := []string{"plain", "closure", "defer", "goroutine", "nested", "funcvalue", "method", "methodvalue", "generic", "inlinable", "noinline", "wrap2", "wrap2noinline", "wrap3", "wrap3mixed", "deferloop", "closurearg"}
+	shapes := []string{"plain", "closure", "defer", "goroutine", "nested", "funcvalue", "method", "methodvalue", "generic", "inlinable", "noinline", "wrap2", "wrap2noinline", "wrap3", "wrap3mixed", "deferloop", "closurearg", "followedbyinline", "inlinablemid", "followedbystmt", "tinyhelper", "tinyhelper", "tinyhelper"}
 
 	for i := 0; i < *n; i++ {
 		id := i + 1
@@ -62,6 +62,43 @@ func main() {
 		switch shape {
 		case "plain":
 			fmt.Fprintf(&b, "func %s(c *siteCtx) { %s; %s }\n", name, want, call(entry, id, ""))
+		case "followedbyinline":
+			// the statement after the log call is an inlined call on the NEXT line
+			fmt.Fprintf(&b, "func %s(c *siteCtx) {\n\t%s; %s\n\tbump()\n}\n", name, want, call(entry, id, ""))
+		case "followedbystmt":
+			fmt.Fprintf(&b, "func %s(c *siteCtx) {\n\t%s; %s\n\tcounterG++\n\tc.n += len(c.exp)\n}\n", name, want, call(entry, id, ""))
+		case "inlinablemid":
+			// the log call sits in the middle of an inlinable helper
+			fmt.Fprintf(&b, "func %sq%d(c *siteCtx) {\n\t%s; %s\n\tcounterG += 2\n}\n\nfunc %s(c *siteCtx) {\n\t%sq%d(c)\n\tbump()\n}\n", P, id, want, call(entry, id, ""), name, P, id)
+		case "tinyhelper":
+			// a helper cheap enough to be inlined for sure: the log call (no varargs, prebuilt field)
+			// in the MIDDLE of its body; the expectation is the helper's entry line + 1, taken from
+			// the function's entry pc (the helper cannot afford a want() call inside its inline budget)
+			var c2 string
+			switch {
+			case entry == "Trace" || entry == "Debug":
+				c2 = fmt.Sprintf("log.%s(c.ctx, c.tag, %sfn%d)", entry, P, id)
+				fmt.Fprintf(&b, "var %sfn%d = func() []log.Field { return []log.Field{log.Int(\"id\", %d)} }\n\n", P, id, id)
+			case strings.HasSuffix(entry, "f"):
+				c2 = fmt.Sprintf("log.%s(c.ctx, c.tag, \"id=%d\")", entry, id)
+			case entry == "Record":
+				c2 = fmt.Sprintf("log.Record(c.ctx, log.InfoLevel, c.tag, 1, %sfld%d)", P, id)
+				fmt.Fprintf(&b, "var %sfld%d = log.Int(\"id\", %d)\n\n", P, id, id)
+			default:
+				c2 = fmt.Sprintf("log.%s(c.ctx, c.tag, %sfld%d)", entry, P, id)
+				fmt.Fprintf(&b, "var %sfld%d = log.Int(\"id\", %d)\n\n", P, id, id)
+			}
+			tailStmt := []string{"counterG += 2", "bump()", "counterG += 2"}[id%3]
+			switch id % 4 {
+			case 0: // helper call followed by more inlined code
+				fmt.Fprintf(&b, "func %st%d(c *siteCtx) {\n\t%s\n\t%s\n}\n\nfunc %s(c *siteCtx) {\n\tc.wantFunc(%d, %st%d, 1)\n\t%st%d(c)\n\tbump()\n}\n", P, id, c2, tailStmt, name, id, P, id, P, id)
+			case 1: // helper call is the last statement of the site
+				fmt.Fprintf(&b, "func %st%d(c *siteCtx) {\n\t%s\n\t%s\n}\n\nfunc %s(c *siteCtx) {\n\tc.wantFunc(%d, %st%d, 1)\n\t%st%d(c)\n}\n", P, id, c2, tailStmt, name, id, P, id, P, id)
+			case 2: // helper called in a loop
+				fmt.Fprintf(&b, "func %st%d(c *siteCtx) {\n\t%s\n\t%s\n}\n\nfunc %s(c *siteCtx) {\n\tc.wantFunc(%d, %st%d, 1)\n\tc.wantFunc(%d, %st%d, 1)\n\tfor i := 0; i < 2; i++ {\n\t\t%st%d(c)\n\t}\n}\n", P, id, c2, tailStmt, name, id, P, id, id, P, id, P, id)
+			default: // two levels of inlining
+				fmt.Fprintf(&b, "func %st%d(c *siteCtx) {\n\t%s\n\t%s\n}\n\nfunc %su%d(c *siteCtx) {\n\t%st%d(c)\n}\n\nfunc %s(c *siteCtx) {\n\tc.wantFunc(%d, %st%d, 1)\n\t%su%d(c)\n}\n", P, id, c2, tailStmt, P, id, P, id, name, id, P, id, P, id)
+			}
 		case "closure":
 			fmt.Fprintf(&b, "func %s(c *siteCtx) {\n\tf := func() { %s; %s }\n\tf()\n}\n", name, want, call(entry, id, ""))
 		case "closurearg":
